@@ -112,6 +112,30 @@ func init() {
 		})
 	})
 
+	// ---- multiout: one converter with two outputs of one type under different labels
+	reg("multiout", "one converter T1 -> (o1, o2) with two outputs of type T0 under different labels (a named and a type-only one, two names, with/without subtype; well-formed), struct and pointer-struct result forms; target of 1-2 parameters over the T0 labels; input T1", func(size int, emit func(Scenario)) {
+		ls := labelsOver([]int{0}, []string{"", "a", "b"}, []string{"", "x"})
+		for _, op := range subsetsUpTo(len(ls), 2) {
+			if len(op) != 2 || !wellFormed(pick(ls, op)) {
+				continue
+			}
+			for _, order := range [][2]int{{0, 1}, {1, 0}} {
+				outs := []Label{ls[op[order[0]]], ls[op[order[1]]]}
+				for _, of := range []Form{FormStruct, FormPtrStruct} {
+					conv := FuncSpec{ID: "c0", In: []Label{{"", 1, ""}}, Out: outs, InForm: FormPositional, OutForm: of}
+					for _, tp := range subsetsUpTo(len(ls), 2) {
+						if len(tp) == 0 || !wellFormed(pick(ls, tp)) {
+							continue
+						}
+						t := mkTarget(pick(ls, tp))
+						t.InForm = FormStruct
+						emit(Scenario{Target: t, Inputs: mkInputs([]Label{{"", 1, ""}}), Convs: []FuncSpec{conv}})
+					}
+				}
+			}
+		}
+	})
+
 	// ---- subconv: converters within one type, between names and subtypes
 	reg("subconv", "one converter over a single type T0 whose input and output labels differ in name and/or subtype (e.g. a:T0 -> a:T0/x); 1 parameter over the same labels; <=1 input", func(size int, emit func(Scenario)) {
 		ls := labelsOver([]int{0}, []string{"", "a", "b"}, []string{"", "x", "y"})
